@@ -159,9 +159,9 @@ func genMutants(c *vf.Ctx, t *target) {
 		if L <= 32768 {
 			flipPos = samplePositions(r, H, L, L)
 		} else {
-			flipPos = samplePositions(r, H, L, 4096)
+			flipPos = samplePositions(r, H, L, 3000)
 		}
-		editPos = samplePositions(r, H, L, 1000)
+		editPos = samplePositions(r, H, L, 600)
 	}
 	for _, p := range append(bounds, flipPos...) {
 		add(mutant{K: "flip", P: p, B: r.IntN(8)})
@@ -190,9 +190,9 @@ func genMutants(c *vf.Ctx, t *target) {
 		if Z <= 16384 {
 			zflip = samplePositions(r, 0, Z, Z)
 		} else {
-			zflip = samplePositions(r, 0, Z, 3000)
+			zflip = samplePositions(r, 0, Z, 2000)
 		}
-		zedit = samplePositions(r, 0, Z, 500)
+		zedit = samplePositions(r, 0, Z, 300)
 	}
 	for _, p := range zflip {
 		zst = append(zst, mutant{K: "flip", P: p, B: r.IntN(8)})
@@ -233,7 +233,7 @@ func posClass(t *target, domain string, m mutant) string {
 func run(c *vf.Ctx) {
 	c.Rule("a case = one (possibly altered) snapshot byte stream, taken from Store.Open(id) of a generated source store, handed to a destination Store sink (raft's Create/Write…/Cancel-or-Close sequence, seeded write split) and to snapshot.Restore; " +
 		"unaltered streams: every split pattern (1 byte, primes, length-prefix/header/file boundaries ±1, whole) and the transport zstd pair with 3 buffer sizes × 3 read sizes + 1-byte trickle; " +
-		"altered streams: bit flip / drop / insert / duplicate / truncate at every header byte, at all boundaries and at sampled (thorough: all for ≤32 KiB, 4096 sampled otherwise) body bytes, appended bytes, header-field edits (sizes ±1, CRC ±1, swapped/dropped/added WAL headers, version, payload kind), the same on the compressed bytes; plus the real NodeTransport pair over TCP with one flipped bit on the wire. " +
+		"altered streams: bit flip / drop / insert / duplicate / truncate at every header byte, at all boundaries and at sampled (thorough: all for ≤32 KiB, 3000 sampled otherwise) body bytes, appended bytes, header-field edits (sizes ±1, CRC ±1, swapped/dropped/added WAL headers, version, payload kind), the same on the compressed bytes; plus the real NodeTransport pair over TCP with one flipped bit on the wire. " +
 		"distinct = (stream, domain, mutation); non-trivial when the altered bytes differ from the original")
 	c.Assume("\"identical\" is byte equality (sha256) of the database produced by Store.Open→snapshot.Restore on the destination (or by Restore on the stream) with the one produced from the unmodified source store, whose logical dump was checked against the stock-driver SQLite twin when the store was generated")
 	c.Assume("an install counts as failed when no new snapshot is listed in the destination (Write or Close returned an error, Close returned nil without installing because the header never completed, or rqlite exited the process); raft's own byte-count check is not relied upon")
@@ -527,7 +527,7 @@ func run(c *vf.Ctx) {
 	wg2.Wait()
 
 	// ---- the real transport pair ----
-	nOff := c.N(10, 120)
+	nOff := c.N(10, 60)
 	tr := c.Rand(55)
 	for i, t := range targets {
 		if t.stream == "" || (c.Quick() && i > 1) || i > 5 {
